@@ -1,5 +1,6 @@
 pub mod checks;
 pub mod content;
+pub mod crypt;
 pub mod families;
 pub mod infra;
 pub mod keys;
